@@ -689,3 +689,163 @@ Proof.
   split; [vm_compute; reflexivity|]. split; [vm_compute; split; reflexivity|].
   intros p Hp. vm_compute in Hp. destruct Hp as [<-|[<-|[]]]; eexists; split; vm_compute; reflexivity.
 Qed.
+
+(* ------------------------------------------------------------------ *)
+(* Bridge cached client -> row builder                                 *)
+(* ------------------------------------------------------------------ *)
+(* Model/BridgeCacheRows.v, Proofs/BridgeCacheRowsP.v.  The two premises
+   [cached_growth_canon_seg] left open -- [Forall (op_keeps J) ops] and
+   [rows_canon rowsf cch J op] -- from assumptions on the NODE only:
+   [world_on] (headers) and [CR.attach_on] (items: every transaction of a
+   blocks reply, every receipt, log and trace in the replies is an item of
+   canon's block of the number it names; the receipts / eth_getLogs reply of
+   the request is complete for the request's filter [want], and may carry any
+   further canon logs).  J := [CR.Jit cch]: numbered, hashes known, every
+   attached transaction / log / trace is canon's ([CR.blk_sub]), logs of a
+   transaction without duplicate index in ARRIVAL order (Logs.Add appends).
+   The row function is any function of [CR.log_view keep b]: header, and per
+   transaction (index, hash) the logs passing [keep] (the declaration's
+   gate), in index order. *)
+From Shovel Require Proofs.BridgeCacheRowsP.
+From Shovel Require Import Model.BridgeCacheRows.
+
+(* (2) every call answered by a node honest about items keeps the invariant:
+   what its getter accepts has it, and its attach phase -- receipts, logs,
+   traces, however far it gets -- takes it to itself *)
+Theorem honest_node_keeps_items_invariant : forall cch op,
+  CR.citems_wf cch -> CR.items_on cch (cc_world op) -> op_keeps (CR.Jit cch) op.
+Proof. exact BridgeCacheRowsP.B.op_keeps_Jit. Qed.
+Print Assumptions honest_node_keeps_items_invariant.
+
+(* ... so the premises [world_on] / [op_keeps] of the cache->task bridge hold
+   for a whole history of calls *)
+Theorem honest_history_discharges_invariant_premise : forall cch (wantf : ccop -> Client.log -> bool) ops,
+  CR.citems_wf cch ->
+  Forall (fun o => world_on cch (cc_world o)
+                   /\ CR.attach_on cch (wantf o) (cc_s o) (cc_l o) (cc_world o)) ops ->
+  Forall (fun o => world_on cch (cc_world o)) ops /\ Forall (op_keeps (CR.Jit cch)) ops.
+Proof. exact BridgeCacheRowsP.honest_ops. Qed.
+Print Assumptions honest_history_discharges_invariant_premise.
+
+(* an accepted attach of an honest node on ANY J-base with canon's headers --
+   whatever other callers attached to the shared segment before -- leaves,
+   block by block, canon's header, only canon's items, and every canon log
+   passing [keep]; premise: the request's own filter accepts every such log
+   and the plan requests receipts or logs *)
+Theorem honest_attach_serves_canon_logs : forall cch,
+  CR.citems_wf cch -> forall keep want p s l w,
+  CR.items_on cch w -> CR.items_all cch want s l w ->
+  (forall lg, keep lg = true -> want lg = true) ->
+  use_receipts p || use_logs p = true ->
+  forall base bs, CR.Jit cch s l base -> map nhp base = map nhp (cseg cch s l) ->
+  Client.attach Client.repaired p s l w base = Ok bs ->
+  Forall2 (CR.served keep) (cseg cch s l) bs.
+Proof. exact BridgeCacheRowsP.B.attach_served. Qed.
+Print Assumptions honest_attach_serves_canon_logs.
+
+(* ... and the view of a served block is the view of canon's block *)
+Theorem served_block_view_is_canon_view : forall keep cb b,
+  (NoDup (map Client.t_idx (Client.b_txs cb))
+   /\ forall c, In c (Client.b_txs cb) -> NoDup (map Client.l_idx (Client.t_logs c))) ->
+  CR.served keep cb b -> CR.log_view keep b = CR.log_view keep cb.
+Proof. exact BridgeCacheRowsP.B.served_view. Qed.
+Print Assumptions served_block_view_is_canon_view.
+
+(* (3) the rows premise, for every row function of the view *)
+Theorem cached_rows_canon_honest_node : forall cch keep want F op,
+  CR.citems_wf cch -> CR.attach_on cch want (cc_s op) (cc_l op) (cc_world op) ->
+  (forall lg, keep lg = true -> want lg = true) ->
+  use_receipts (cc_plan op) || use_logs (cc_plan op) = true ->
+  rows_canon (CR.view_rowsf keep F) cch (CR.Jit cch) op.
+Proof. exact BridgeCacheRowsP.B.rows_canon_honest. Qed.
+Print Assumptions cached_rows_canon_honest_node.
+
+(* (4) growth through the cache from assumptions on the node only *)
+Theorem cached_growth_canon_seg_honest_node : forall hid keep F cch wantf mx ops i op bs,
+  CR.citems_wf cch ->
+  Forall (fun o => world_on cch (cc_world o)
+                   /\ CR.attach_on cch (wantf o) (cc_s o) (cc_l o) (cc_world o)) ops ->
+  (forall lg, keep lg = true -> wantf op lg = true) ->
+  use_receipts (cc_plan op) || use_logs (cc_plan op) = true ->
+  cached_result mx ops i op bs -> fetches (cc_plan op) = true ->
+  canon_seg true (canon hid (CR.view_rowsf keep F) cch) (cc_s op, cc_l op)
+            (SegOk (map (BridgeClientTaskP.abs hid (CR.view_rowsf keep F)) bs)).
+Proof. exact BridgeCacheRowsP.cached_canon_seg_honest. Qed.
+Print Assumptions cached_growth_canon_seg_honest_node.
+
+Theorem cached_growth_reply_honest_node : forall hid keep F cch wantf ps rs,
+  CR.citems_wf cch ->
+  Forall2 (CR.honest_cache_answer hid keep F cch wantf) ps rs ->
+  growth_reply true (canon hid (CR.view_rowsf keep F) cch) (RGet ps) (RSegs rs).
+Proof. exact BridgeCacheRowsP.cached_growth_reply_honest. Qed.
+Print Assumptions cached_growth_reply_honest_node.
+
+(* necessity.  A row function of the delivered block AS IT IS does not satisfy
+   the rows premise even for an honest node: Logs.Add keeps arrival order *)
+Theorem cached_rows_raw_refuted : ~ CR.rows_canon_raw_full.
+Proof. exact BridgeCacheRowsP.X.raw_rows_refuted. Qed.
+Print Assumptions cached_rows_raw_refuted.
+
+(* ... and without [keep -> want] (the request's filter accepts no fewer logs
+   than the rows depend on) the premise fails: the node may withhold them *)
+Theorem cached_rows_filter_cover_needed : ~ CR.rows_canon_any_keep_full.
+Proof. exact BridgeCacheRowsP.X.filter_cover_needed. Qed.
+Print Assumptions cached_rows_filter_cover_needed.
+
+(* C11's builder.  [C11V.c11_rowsf rd d c dbs keep] -- BridgeRowsTask.rowsf_of
+   on the view -- is a row function of the form above (by definition), so (3)
+   and (4) hold for it.  What restricting to the view loses: nothing that
+   Insert looks at.  C13 [insert_ignores_undeclared_logs] on client-level
+   blocks: logs of other events, attached by other integrations ... *)
+Theorem c11_insert_ignores_foreign_attached_logs : forall rd ed c dbs bs,
+  Rows.insert Rows.fixed (BridgeGateRows.decl_of ed) c dbs
+    (map (C11V.conv rd) (map (C11V.restrict (C11V.gate_keep rd ed)) bs))
+  = Rows.insert Rows.fixed (BridgeGateRows.decl_of ed) c dbs (map (C11V.conv rd) bs).
+Proof. exact BridgeCacheRowsP.V.c11_gate_restriction. Qed.
+Print Assumptions c11_insert_ignores_foreign_attached_logs.
+
+(* ... and C12 [pushdown_loses_none]: canon logs that the declaration's own
+   eth_getLogs restrictions (keep := want := address / topic pushdown) withhold *)
+Theorem c11_insert_ignores_withheld_logs : forall rd d c dbs bs rows,
+  Rows.indexing Rows.fixed d = Rows.IxLog -> wf_bytes (Rows.d_sighash d) ->
+  (forall b t lg, In b bs -> In t (Client.b_txs b) -> In lg (Client.t_logs t) ->
+     length (Filter.ob (Rows.l_addr (C11V.rd_log rd lg))) = 20%nat) ->
+  Rows.insert Rows.fixed d c dbs (map (C11V.conv rd) bs) = Ok rows ->
+  Rows.insert Rows.fixed d c dbs (map (C11V.conv rd) (map (C11V.restrict (C11V.push_keep rd d)) bs)) = Ok rows.
+Proof. exact BridgeCacheRowsP.V.c11_pushdown_restriction. Qed.
+Print Assumptions c11_insert_ignores_withheld_logs.
+
+(* non-vacuity.  Plan headers + eth_getLogs, request (1, 2) of the chain
+   [ex_cch] (block 2: one transaction with log 0, payload 7, and log 1,
+   payload 8).  Integration B (logs with payload 8) reads first, integration
+   A (payload 7) second and is SERVED B's CACHED SEGMENT (its own headers
+   reply is a transport failure; uncached, its Get fails): A's block 2 carries
+   B's log 1 BEFORE its own log 0.  The raw rows differ from canon's in order
+   and content; A's rows of the view are canon's, and so are B's. *)
+Example ex_two_integrations_one_cached_segment :
+  match ccrun (new_cclient 3) [EX.opB; EX.opA] with
+  | Some (_, [Ok a; Ok b]) =>
+      Client.get (cc_plan EX.opA) 1 2 (cc_world EX.opA) = Err
+      /\ map (fun x => map Client.t_logs (Client.b_txs x)) b
+         = [[]; [[Client.mkLog 1 [8]; Client.mkLog 0 [7]]]]
+      /\ map ex_rowsf b = [[]; [(1, 8); (0, 7)]]
+      /\ map ex_rowsf (cseg ex_cch 1 2) = [[]; [(0, 7); (1, 8)]]
+      /\ map (CR.view_rowsf EX.keepA ex_rowsf) b = [[]; [(0, 7)]]
+      /\ map (CR.view_rowsf EX.keepA ex_rowsf) (cseg ex_cch 1 2) = [[]; [(0, 7)]]
+      /\ map (CR.view_rowsf EX.keepB ex_rowsf) a = map (CR.view_rowsf EX.keepB ex_rowsf) (cseg ex_cch 1 2)
+      /\ canon_seg true (canon ex_hid (CR.view_rowsf EX.keepA ex_rowsf) ex_cch) (1, 2)
+                   (SegOk (map (BridgeClientTaskP.abs ex_hid (CR.view_rowsf EX.keepA ex_rowsf)) b))
+  | _ => False
+  end.
+Proof. vm_compute. repeat split; try reflexivity; intros H; discriminate H. Qed.
+
+(* the premises of [cached_growth_canon_seg_honest_node] hold for that run *)
+Example ex_honest_node_hypotheses_satisfiable :
+  CR.citems_wf ex_cch
+  /\ Forall (fun o => world_on ex_cch (cc_world o)
+                      /\ CR.attach_on ex_cch (EX.ex_wantf o) (cc_s o) (cc_l o) (cc_world o)) [EX.opB; EX.opA]
+  /\ (forall lg, EX.keepA lg = true -> EX.ex_wantf EX.opA lg = true)
+  /\ use_receipts (cc_plan EX.opA) || use_logs (cc_plan EX.opA) = true
+  /\ (exists bs, cached_result 3 [EX.opB; EX.opA] 1 EX.opA bs)
+  /\ fetches (cc_plan EX.opA) = true.
+Proof. exact BridgeCacheRowsP.X.ex_honest_hyps. Qed.
